@@ -518,8 +518,8 @@ def r6(prog, run):
 
     def transfer(g, nid, st):
         n = g.nodes[nid]
-        if n['k'] == 'call' and n.get('obj') is not None and g.nodes[g.skip(n['obj'])].get('f') == sq and (g.sym(n) or {}).get('name') in ('disconnectFromHost', 'abort', 'close'):
-            return ('closed',)
+        if n['k'] == 'call' and n.get('obj') is not None and g.nodes[g.resolve(n['obj'])].get('f') == sq and (g.sym(n) or {}).get('name') in ('disconnectFromHost', 'abort', 'close'):
+            return ('closed',)          # on the member, or on a local alias of it
         return None
     exits, _ = cfgx.explore(f, (), transfer, lambda g, c, st: ev.ev(c, st), max_states=5000)
     run.instance(rid)
